@@ -34,7 +34,8 @@ TABLE = {
     "C07": {
         "module": "AcqVerif.Props.C07",
         "theorems": ["AcqVerif.C07.stop_returns_armed_and_clean", "AcqVerif.C07.stop_has_joined", "AcqVerif.C07.start_over_finished_threads",
-                     "AcqVerif.C07.idle_runtime_is_clean", "AcqVerif.Runtime.TInvAll.micro", "AcqVerif.Runtime.Reach.micro"],
+                     "AcqVerif.C07.idle_runtime_is_clean", "AcqVerif.C07.refusal_wakes_a_sleeping_source", "AcqVerif.Runtime.TInvAll.micro",
+                     "AcqVerif.Runtime.DWake.micro", "AcqVerif.Runtime.Reach.micro"],
         "classes": ["abort", "abortmon", "holdmon", "trig", "avgabort", "stofault", "restart"],
         "kinds": ("still-running-after", "state-after", "never-returns", "stored-", "camera-delivered", "CRASH", "monitor-frame-not-from"),
         "what": "abort/stop from any moment (ring full, client holding data, trigger wait, averaging, finished) return, leave workers finished, devices "
